@@ -226,3 +226,17 @@ def ref_base(flow, operand, depth=0):
     if r["k"] in ("use", "cast"):
         return ref_base(flow, r["o"], depth + 1) if op_place(r["o"]) is not None else l
     return l
+
+
+def error_blocks(cfg):
+    """blocks that only lie on a failing path of a Result-returning function: the
+    `?` residual conversion and direct constructions of Result::Err"""
+    out = set()
+    for i in cfg.reach:
+        t = cfg.blocks[i]["t"]
+        if t and t["k"] == "call" and any(n.endswith("FromResidual::from_residual") for n in call_names(t)):
+            out.add(i)
+        for s in cfg.blocks[i]["s"]:
+            if s["k"] == "assign" and s["r"]["k"] == "agg" and s["r"].get("ak") == "adt" and s["r"]["adt"].endswith("result::Result") and s["r"].get("variant") == "Err":
+                out.add(i)
+    return out
